@@ -91,18 +91,23 @@ def confirm(name, prop, outdir, needs):
 
 
 def run(name, checks, tier="quick"):
+    """apply the change to a scratch worktree of /repo HEAD and run the checks against it (VERIF_REPO), so that /repo itself
+    and anything else running against it are not disturbed; the worktree is removed afterwards."""
     d = os.path.join(SEEDED, name)
     meta = json.load(open(os.path.join(d, "meta.json")))
     checks = checks or [meta["breaks_property"]]
-    rc, o = sh("git -C /repo status --porcelain --untracked-files=no")
-    assert o.strip() == "", "/repo has local modifications: " + o
-    rc, o = sh("git -C /repo apply %s" % os.path.join(d, "patch.diff"))
+    wt = "/tmp/wt/seedrun-%s-%d" % (name, os.getpid())
+    os.makedirs("/tmp/wt", exist_ok=True)
+    sh("git -C /repo worktree remove --force %s" % wt)
+    rc, o = sh("git -C /repo worktree add -q --detach %s HEAD" % wt)
     assert rc == 0, o
     results = {}
     try:
+        rc, o = sh("git apply %s" % os.path.join(d, "patch.diff"), cwd=wt)
+        assert rc == 0, o
         for c in checks:
             rc, o = sh(["/verif/check", c, "--tier", tier], cwd="/verif",
-                       env={"VERIF_EVIDENCE_DIR": "/verif/.build/seed-evidence"})
+                       env={"VERIF_EVIDENCE_DIR": "/verif/.build/seed-evidence", "VERIF_REPO": wt})
             viol = [l for l in o.splitlines() if l.startswith("VIOLATION")]
             print("== %s on %s: rc=%d, %d VIOLATION lines" % (c, name, rc, len(viol)))
             for l in viol[:4]:
@@ -111,7 +116,7 @@ def run(name, checks, tier="quick"):
                 print(o[-1500:])
             results[c] = {"rc": rc, "violations": len(viol), "first": viol[0][:300] if viol else None}
     finally:
-        sh("git -C /repo checkout -- .")
+        sh("git -C /repo worktree remove --force %s" % wt)
     return results
 
 
